@@ -251,6 +251,6 @@ macro "inv_cases" : tactic => `(tactic| (constructor <;> first | (inv_auto; done
 macro "inv_obtain" h:ident : tactic => `(tactic|
   obtain ⟨kindC, kindF, lockOk, frWait, freshOk, freshUniq, freshVer, freshVerT, freshNode, wFreeTaken, preOk, postOk, ownOk, rsmTaken,
     freeTaken, pubNode, waiting, parked, listOk, scanOk, prevOk, placed, oScanOk, oNoneOk, aUnlockOk, aNextOk, aResumeOk, aFreeOk,
-    noRead, cTakeOk, allocUsed, noBad⟩ := $h)
+    noRead, cTakeOk, cRemoveOk, allocUsed, noBad⟩ := $h)
 
 end Babylon.Coro
